@@ -132,7 +132,7 @@ PLANS = {
                            lambda tier, seed: _sim(families.sample(families.export_family("deps4", 1), 300 if tier == "quick" else 5000, seed))),
                 l1=l1(dict(family="deps", invariants=["Inv_C05"], properties=["Live_C05"]),
                       dict(family="abs", invariants=["Inv_C05"]))),
-    "C06": dict(cases=step_cases(["deps", "alloc", "pairs", "deps2", "edge", "fixed", "mainwp", "half"], FULL),
+    "C06": dict(cases=step_cases(["deps", "alloc", "pairs", "deps2", "edge", "fixed", "mainwp", "half", "autocomp"], FULL),
                 l1=l1(dict(family="rand", rand=FLAT, invariants=['Inv_C06'], properties=['Prop_C06'], tier=1),
                       dict(family="deps", invariants=["Inv_C06"], properties=["Prop_C06"]),
                       dict(family="alloc", invariants=["Inv_C06"], properties=["Prop_C06"]))),
@@ -142,16 +142,16 @@ PLANS = {
                       dict(family="abs", invariants=["Inv_C07"]))),
     "C08": dict(cases=step_cases(["deps", "place", "dag", "watch", "edge", "half"], FULL),
                 l1=l1(dict(family="abs", invariants=["Inv_C08"]))),
-    "C10": dict(cases=step_cases(["abs", "pairs"], FULL),
+    "C10": dict(cases=step_cases(["abs", "pairs", "autocomp"], FULL),
                 l1=l1(dict(family="abs", invariants=["Inv_C10", "Inv_C10H"], properties=["Prop_C10"]))),
     "C11": dict(cases=both(sort_cases(), step_cases(["alloc", "edge", "pairs", "fixed", "mainwp"], FULL, nq=400, rq=300)),
                 l1=l1(dict(family="alloc", properties=["Prop_C11"]), dict(family="pairs", properties=["Prop_C11"]))),
     "C12": dict(cases=step_cases(["pert"], dict(facilities=False, components=False, kinds=["FS"])),
                 l1=l1(dict(family="pert", invariants=["Inv_C12"]))),
-    "C13": dict(cases=step_cases(["place", "conveyor", "mainwp"], FULL),
+    "C13": dict(cases=step_cases(["place", "conveyor", "mainwp", "autocomp"], FULL),
                 l1=l1(dict(family="placeflat", invariants=["Inv_C13"], properties=["Prop_C13"]),
                       dict(family="conveyor", invariants=["Inv_C13"], properties=["Prop_C13"]))),
-    "C14": dict(cases=step_cases(["place", "deps", "dag", "watch"], FULL),
+    "C14": dict(cases=step_cases(["place", "deps", "dag", "watch", "autocomp"], FULL),
                 l1=l1(dict(family="rand", rand=FLAT, invariants=['Inv_C14'], properties=['Prop_C14'], tier=1),
                       dict(family="place", invariants=["Inv_C14"], properties=["Prop_C14"]))),
 }
@@ -475,7 +475,8 @@ def c16_cases(tier, seed):
                # the structural graph before and after the round trip (run 4 = reference)
                {"op": "graph", "workers": True, "facilities": True},
                {"op": "saveload"},                                                         # never simulated
-               _cmp({"op": "graph", "workers": True, "facilities": True}, 4, "C16", "graph")]
+               {"op": "saveload"},                                                         # (and once more)
+               _cmp({"op": "graph", "workers": True, "facilities": True}, 4, "C16", "graph")]  # after two round trips
         ops += [_cmp({"op": "simulate", "light": True}, 1, "C16", "lg")] if simple else [{"op": "simulate", "light": True}]
         ops += [{"op": "saveload"}]                                                        # finished forward
         ops += [{"op": "rebuild", "plain": True}, {"op": "simulate", "opts": {"maxTime": k}, "light": True},
@@ -795,7 +796,10 @@ _more_l1("C11", dict(family="fixed", properties=["Prop_C11"], quick=True), dict(
 _more_l1("C02", dict(family="half", invariants=["Inv_C02"], properties=["Prop_C02"], quick=True))
 _more_l1("C01", dict(family="half", invariants=["Inv_C01"], properties=["Prop_C01"], quick=True))
 _more_l1("C04", dict(family="mainwp", invariants=["Inv_C04"], properties=["Prop_C04"]))
-_more_l1("C13", dict(family="mainwp", invariants=["Inv_C13"], properties=["Prop_C13"], quick=True))
+_more_l1("C13", dict(family="mainwp", invariants=["Inv_C13"], properties=["Prop_C13"], quick=True),
+         dict(family="autocomp", invariants=["Inv_C13"], properties=["Prop_C13"], quick=True))
+_more_l1("C10", dict(family="autocomp", invariants=["Inv_C10"], properties=["Prop_C10"], quick=True))
+_more_l1("C14", dict(family="autocomp", invariants=["Inv_C14"], properties=["Prop_C14"], quick=True))
 _more_l1("C05", dict(family="alloc", invariants=["Inv_C05"], properties=["Live_C05"], tier=1),
          dict(family="deps2", invariants=["Inv_C05"], properties=["Live_C05"]),
          dict(family="deps4", invariants=["Inv_C05"], tier=1))
